@@ -75,6 +75,12 @@ func main() {
 			os.Exit(2)
 		}
 	}
+	for _, d := range dirs {
+		if err := writeState(d); err != nil {
+			fmt.Fprintln(os.Stderr, "instrument:", err)
+			os.Exit(2)
+		}
+	}
 	if err := writeReset(); err != nil {
 		fmt.Fprintln(os.Stderr, "instrument:", err)
 		os.Exit(2)
@@ -274,6 +280,62 @@ func doFile(path string) error {
 		return err
 	}
 	return os.WriteFile(path, buf.Bytes(), 0o644)
+}
+
+// writeState generates zz_verif_state.go in a package directory: an init()
+// that hands the addresses of all package-level variables to
+// verif/simrt/pkgstate, which rewinds them in place between simulated runs.
+func writeState(dir string) error {
+	ents, err := os.ReadDir(dir)
+	if err != nil {
+		return err
+	}
+	fset := token.NewFileSet()
+	pkgName := ""
+	var names []string
+	for _, e := range ents {
+		n := e.Name()
+		if e.IsDir() || !strings.HasSuffix(n, ".go") || strings.HasSuffix(n, "_test.go") || strings.HasPrefix(n, "zz_verif_") {
+			continue
+		}
+		f, err := parser.ParseFile(fset, filepath.Join(dir, n), nil, 0)
+		if err != nil {
+			return fmt.Errorf("%s: %v", n, err)
+		}
+		if f.Name.Name == "main" {
+			return nil
+		}
+		pkgName = f.Name.Name
+		for _, d := range f.Decls {
+			gd, ok := d.(*ast.GenDecl)
+			if !ok || gd.Tok != token.VAR {
+				continue
+			}
+			for _, sp := range gd.Specs {
+				vs, ok := sp.(*ast.ValueSpec)
+				if !ok {
+					continue
+				}
+				for _, id := range vs.Names {
+					if id.Name != "_" {
+						names = append(names, id.Name)
+					}
+				}
+			}
+		}
+	}
+	if pkgName == "" || len(names) == 0 {
+		return nil
+	}
+	sort.Strings(names)
+	rel, _ := filepath.Rel(rootDir, dir)
+	var b bytes.Buffer
+	fmt.Fprintf(&b, "package %s\n\n// Generated by /verif/cmd/instrument in a scratch copy; never part of /repo.\n\nimport \"verif/simrt/pkgstate\"\n\nfunc init() {\n\tpkgstate.Register(%q, []pkgstate.Var{\n", pkgName, rel)
+	for _, n := range names {
+		fmt.Fprintf(&b, "\t\t{Name: %q, Ptr: &%s},\n", n, n)
+	}
+	fmt.Fprintf(&b, "\t})\n}\n")
+	return os.WriteFile(filepath.Join(dir, "zz_verif_state.go"), b.Bytes(), 0o644)
 }
 
 // writeReset drops the registry snapshot/restore hook into the root package.
